@@ -14,6 +14,11 @@
    model.)  A definition is a macro: it is expanded where it is used, under
    the priming and the quantifiers in force there, as in the code.
 
+   Outside the model (not in the documented grammar, or not first-order):
+   the renaming operator \S, BDD node references "@ n", the truncator <<>>,
+   strings, the temporal operators.  A prime inside a prime is read as one
+   prime (the code's [prime] flag is idempotent).
+
    No proofs here (see CompileProofs.v). *)
 From Coq Require Import ZArith List Bool.
 From Omega Require Import L1Circuits.Circuits.
